@@ -60,6 +60,17 @@ class ExprRewriter(ast.NodeTransformer, EmitterMixin):
             handler_guards_by_event,
         )
         self._top_level_node_for_symbol: Optional[ast.AST] = None
+        self._annotations_postponed = False
+
+    def note_future_imports(self, body: List[ast.stmt]) -> None:
+        # under `from __future__ import annotations` an annotation is never evaluated: its source text is what
+        # ends up in __annotations__, so it must stay as written
+        self._annotations_postponed = any(
+            isinstance(stmt, ast.ImportFrom)
+            and stmt.module == "__future__"
+            and any(alias.name == "annotations" for alias in stmt.names)
+            for stmt in body
+        )
 
     def visit(self, node: ast.AST):
         ret = super().visit(node)
@@ -732,7 +743,14 @@ class ExprRewriter(ast.NodeTransformer, EmitterMixin):
     def visit_FunctionDef_or_AsyncFunctionDef(
         self, node: Union[ast.FunctionDef, ast.AsyncFunctionDef]
     ):
-        self.generic_visit(node.args)
+        if self._annotations_postponed:
+            node.args.defaults = [self.visit(default) for default in node.args.defaults]
+            node.args.kw_defaults = [
+                default if default is None else self.visit(default)
+                for default in node.args.kw_defaults
+            ]
+        else:
+            self.generic_visit(node.args)
         for elt in node.body:
             self.visit(elt)
         new_decorator_list = []
